@@ -410,6 +410,31 @@ func c11Case(r *core.Run, idx int, rng *rand.Rand) {
 		} else {
 			r.Count("issuer_checked_query", 1)
 		}
+		// queries the provider refuses (unknown subject; the user store failing): when the refusal is a protocol response
+		// it is issued by the published entity like every other response
+		for _, refuse := range []string{"unknown_subject", "user_store_fails"} {
+			q2 := conformantQuery(rng, spd, u.Username)
+			q2.Destination = attrLoc
+			if refuse == "unknown_subject" {
+				q2.Subject = "nobody-" + plainString(rng, 4)
+			} else {
+				e.W.Plan = func(_, o string, _ int) string {
+					if o == "SetUserinfoWithLoginName" {
+						return sim.FaultError
+					}
+					return ""
+				}
+			}
+			rc := e.Do(env.Req{Method: "POST", Path: eps["attr"].route("attribute"), Body: q2.XML(rng), CT: "text/xml", Host: reqHost, Headers: hdr})
+			e.W.Plan = nil
+			if rc.Panic == "" && rc.D.Msg != nil && rc.D.Msg.Root == "Response" && !rc.D.Success() {
+				if rc.D.Msg.Issuer != mv.EntityID {
+					viol(rc, "issuer_of_refused_query", fmt.Sprintf("Issuer %q of the response that refuses a query (%s), entityID %q", rc.D.Msg.Issuer, refuse, mv.EntityID))
+				} else {
+					r.Count("issuer_checked_refused_query", 1)
+				}
+			}
+		}
 		// --- transient key-storage failure while the metadata is built: the request may fail, but a document that is
 		// served is still the document of this request's issuer ---
 		if hi == 0 {
